@@ -382,6 +382,18 @@ func (w *siteWalker) walk(n *ast.Node, parent *ast.Node, idxInParent int, sameTy
 			// Give the second named parameter the name of the first.
 			w.sites = append(w.sites, Site{Kind: "dup:parameter", Off: named[1].Offset(), End: named[1].Endoffset(), Text: named[1].Text(), Replace: named[0].Text()})
 		}
+		if len(named) >= 1 && parent != nil && parent.Type() == ll.FuncHeader {
+			// Append a copy of the first named parameter: no name disappears, so the
+			// duplicate is the only naming error (renaming a parameter that the body
+			// uses adds an undefined use, which masks a missing duplicate check).
+			for _, p := range ps {
+				if id := p.Child(selector.LocalIdent); id != nil && id.Offset() == named[0].Offset() {
+					last := ps[len(ps)-1]
+					w.sites = append(w.sites, Site{Kind: "dup:parameter (copy of the first named parameter appended)", Off: named[0].Offset(), End: named[0].Endoffset(), Text: named[0].Text(), InsertAt: last.Endoffset(), Insert: ", " + p.Text()})
+					break
+				}
+			}
+		}
 	}
 	counts := map[ll.NodeType]int{}
 	for i, c := range nodeKids(n) {
@@ -685,9 +697,11 @@ func c05Search() {
 	sum := newSummary()
 	distinct := hashSet{}
 	thorough := *flagTier == "thorough"
-	orders := 3
+	orders := 4
 	if thorough {
-		orders = 8
+		// every faulted input under 200 seeded translation orders (map-range
+		// permutations and the decisions about keys created during a range)
+		orders = 200
 	}
 	var unit int64
 	failures := 0
